@@ -43,6 +43,38 @@ func vDrainIDs(next func() (int, bool), seen []bool, count int, n int, mustPanic
 	vCover("iter-completes-" + tag)
 }
 
+// vDrainFresh: the operation happened between Iterate() and the first Next(). Whether the
+// iteration "started" at Iterate() (then the first Next panics) or at the first Next (then it
+// walks the contents as they are now) is the implementation's choice; what it must not do is
+// walk something that is neither: it yields exactly the current contents, each once, or panics.
+func vDrainFresh(next func() (int, bool), want []bool, tag string) {
+	seen := make([]bool, len(want))
+	for calls := 0; calls < len(want)+2; calls++ {
+		var id int
+		var ok bool
+		if vTry(func() { id, ok = next() }) {
+			vCover("iter-fresh-panics-" + tag)
+			return
+		}
+		if !ok {
+			for i := range want {
+				vAssert(seen[i] == want[i], tag+"/before-first-next/end-only-after-the-current-contents")
+			}
+			vCover("iter-fresh-completes-" + tag)
+			return
+		}
+		vAssert(vAnd(0 <= id, id < len(want)), tag+"/before-first-next/yields-current-contents")
+		idc := vConcretize(id)
+		if idc < 0 || idc >= len(want) {
+			return
+		}
+		vAssert(want[idc], tag+"/before-first-next/yields-current-contents")
+		vAssert(!seen[idc], tag+"/before-first-next/yields-each-element-once")
+		seen[idc] = true
+	}
+	vAssert(false, tag+"/before-first-next/terminates")
+}
+
 // VerifHeapIter: Heap.Iterate with one mid-iteration operation after j >= 1 Next calls
 // (j = 0 for op 0: plain iteration of an unchanged heap).
 func VerifHeapIter(op int, n int) {
@@ -53,15 +85,8 @@ func VerifHeapIter(op int, n int) {
 		x, ok := it.Next()
 		return x.ID, ok
 	}
-	lo := 1
-	if op == 0 {
-		lo = 0
-	}
-	if n < lo {
-		return
-	}
 	j := vNondetInt("consumed")
-	vAssume(vAnd(lo <= j, j <= n))
+	vAssume(vAnd(0 <= j, j <= n))
 	jc := vConcretize(j)
 	for k := 0; k < jc; k++ {
 		id, ok := next()
@@ -72,19 +97,32 @@ func VerifHeapIter(op int, n int) {
 		seen[idc] = true
 	}
 	tag, structural := "none", false
+	popped := -1
 	switch op {
 	case 1:
 		tag, structural = "push", true
 		h.Push(vItem{P: vNondet[vPrio]("x"), ID: n})
 	case 2:
 		tag, structural = "pop", true
-		h.Pop()
+		if n == 0 {
+			return
+		}
+		popped = vConcretize(h.Pop().ID)
 	case 3:
 		tag = "grow"
 		h.Grow(4)
 	case 4:
 		tag = "shrink"
 		h.Shrink(0)
+	}
+	if jc == 0 && op != 0 {
+		want := make([]bool, n+1)
+		for i := 0; i < n; i++ {
+			want[i] = i != popped
+		}
+		want[n] = op == 1
+		vDrainFresh(next, want, "heapiter/"+tag)
+		return
 	}
 	vDrainIDs(next, seen, jc, n, structural, "heapiter/"+tag)
 }
@@ -96,15 +134,8 @@ func VerifPQIter(op int, n int) {
 	it := q.Iterate()
 	seen := make([]bool, n+1)
 	next := func() (int, bool) { return it.Next() }
-	lo := 1
-	if op == 0 {
-		lo = 0
-	}
-	if n < lo {
-		return
-	}
 	j := vNondetInt("consumed")
-	vAssume(vAnd(lo <= j, j <= n))
+	vAssume(vAnd(0 <= j, j <= n))
 	jc := vConcretize(j)
 	for k := 0; k < jc; k++ {
 		id, ok := next()
@@ -115,6 +146,7 @@ func VerifPQIter(op int, n int) {
 		seen[idc] = true
 	}
 	tag, structural := "none", false
+	gone := -1
 	switch op {
 	case 1: // Update of an existing key to a lower / equal / higher priority
 		tag = "update-existing"
@@ -128,10 +160,26 @@ func VerifPQIter(op int, n int) {
 		tag, structural = "remove", true
 		k := vNondetInt("k")
 		vAssume(vAnd(0 <= k, k < n))
-		q.Remove(k)
+		if n == 0 {
+			return
+		}
+		gone = vConcretize(k)
+		q.Remove(gone)
 	case 4:
 		tag, structural = "pop", true
-		q.Pop()
+		if n == 0 {
+			return
+		}
+		gone = vConcretize(q.Pop())
+	}
+	if jc == 0 && op != 0 {
+		want := make([]bool, n+1)
+		for i := 0; i < n; i++ {
+			want[i] = i != gone
+		}
+		want[n] = op == 2
+		vDrainFresh(next, want, "pqiter/"+tag)
+		return
 	}
 	vDrainIDs(next, seen, jc, n, structural, "pqiter/"+tag)
 }
